@@ -579,6 +579,51 @@ pub assume_specification<T, A: core::alloc::Allocator, F: FnMut(&T) -> bool>[ Ve
         forall|k: int| 0 <= k < final(v)@.len() ==> old(v)@.contains(#[trigger] final(v)@[k]) && f.ensures((&final(v)@[k],), true),
         forall|k: int| 0 <= k < old(v)@.len() && !f.ensures((&old(v)@[k],), false) ==> final(v)@.contains(#[trigger] old(v)@[k]);
 
+/// the items a `HashSet` iterator will yield are members of the set (vstd states the converse, no duplicates and the
+/// length; this is the pigeonhole step)
+proof fn lemma_rem_in_set<K>(rem: Seq<&K>, s: Set<K>)
+    requires rem.no_duplicates(), rem.len() == s.len(), s.finite(), forall|k: K| s.contains(k) ==> rem.contains(&k),
+    ensures forall|i: int| 0 <= i < rem.len() ==> s.contains(*(#[trigger] rem[i])),
+{
+    let m = rem.map_values(|k: &K| *k);
+    let t: Set<K> = m.to_set();
+    assert(m.no_duplicates()) by {
+        assert forall|i: int, j: int| 0 <= i < m.len() && 0 <= j < m.len() && i != j implies m[i] != m[j] by {
+            assert(rem[i] != rem[j]);
+        }
+    }
+    m.unique_seq_to_set();
+    assert(s.subset_of(t)) by {
+        assert forall|k: K| s.contains(k) implies t.contains(k) by {
+            assert(rem.contains(&k));
+            let i = choose|i: int| 0 <= i < rem.len() && rem[i] == &k;
+            assert(*rem[i] == k);
+            assert(m[i] == k);
+            assert(m.contains(k));
+        }
+    }
+    vstd::set_lib::lemma_subset_equality(s, t);
+    assert forall|i: int| 0 <= i < rem.len() implies s.contains(*(#[trigger] rem[i])) by {
+        assert(m[i] == *rem[i]);
+        assert(t.contains(m[i]));
+    }
+}
+
+/// R6: `SET.iter().next()`.  Not an assumption: the body is that very expression with the iterator named, verified
+/// against vstd's specification of `HashSet::iter` / `Iter::next`.
+fn verif_set_first<'a>(s: &'a HashSet<String>) -> (r: Option<&'a String>)
+    ensures
+        match r { Some(id) => s@.contains(*id), None => s@ =~= Set::<String>::empty() },
+{
+    broadcast use group_verif_axioms;
+    let mut verif_rt = s.iter();
+    proof { assert(s@.finite()); lemma_rem_in_set(verif_rt.remaining(), s@); }
+    let ghost rem = verif_rt.remaining();
+    let next_job = verif_rt.next();
+    assert(next_job is Some ==> rem.len() > 0 && next_job.unwrap() == rem[0]);
+    next_job
+}
+
 // ---- A-clone: HashSet<String>::clone returns an equal set (vstd has no usable spec for it)
 #[verifier::external_body]
 fn verif_clone_string_set(s: &HashSet<String>) -> (r: HashSet<String>)
